@@ -155,6 +155,9 @@ func (e *Env) term(st *State, v Val) string {
 		return v.T
 	case kStore:
 		e.D.declSort("StoreV")
+		if v.Frozen != "" {
+			return v.Frozen
+		}
 		return e.D.uf("storeview", []string{e.compSort(v.Store.Comp), sStr}, "StoreV", e.readComp(st, v.Store.World, v.Store.Comp), e.segsTerm(v.Store.Prefix))
 	case kClosure:
 		e.D.declSort("Func")
@@ -221,6 +224,7 @@ func (e *Env) box(st *State, inner Val) string {
 	st.define(tEq(tApp(un, b), it))
 	st.define(tEq(tApp("tagof", b), intLit(int64(tag))))
 	st.define(tNot(tEq(b, "nilI")))
+	e.nonNil[b] = true
 	return b
 }
 
@@ -434,6 +438,7 @@ func (e *Env) setIndex(st *State, v Val, idx string, nv Val, pos token.Pos) Val 
 
 // safety: under nopanic it is an obligation, otherwise an assumption (paths that panic are not normal returns).
 func (e *Env) safety(st *State, cond, label string, pos token.Pos) {
+	cond = foldCmp(cond)
 	if cond == "true" {
 		return
 	}
@@ -569,12 +574,17 @@ func (e *Env) globalPtr(st *State, g *ssa.Global) Val {
 	s := e.sortOfT(et)
 	name := e.D.namedConst(key, s)
 	v := e.wrapTerm(et, name)
+	if iv, ok := e.globalInit(st, g); ok {
+		v = iv
+		name = iv.T
+	}
 	// package-level error sentinels and pointers created by constructors are non-nil
 	if strings.HasPrefix(s, "Opt_") {
 		e.D.axioms = appendUniq(e.D.axioms, tNot(tEq(name, "none_"+s)))
 	}
 	if s == sIface && (strings.HasPrefix(g.Name(), "Err") || strings.HasPrefix(g.Name(), "err")) {
 		e.D.axioms = appendUniq(e.D.axioms, tNot(tEq(name, "nilI")))
+		e.nonNil[name] = true
 	}
 	// one stable cell per global per state
 	for id, cv := range st.cells {
@@ -586,6 +596,42 @@ func (e *Env) globalPtr(st *State, g *ssa.Global) Val {
 	id := -e.cellN
 	st.cells[id] = v
 	return Val{K: kPtr, Typ: g.Type(), Ptr: &Pointer{Cell: id, RO: true}}
+}
+
+// globalInit finds a constant initial value of a package-level variable (string / []byte literals)
+// in the package initialiser. Globals are assumed immutable after init (listed assumption).
+func (e *Env) globalInit(st *State, g *ssa.Global) (Val, bool) {
+	init := g.Pkg.Func("init")
+	if init == nil {
+		return Val{}, false
+	}
+	var found ssa.Value
+	n := 0
+	for _, b := range init.Blocks {
+		for _, ins := range b.Instrs {
+			if s, ok := ins.(*ssa.Store); ok && s.Addr == g {
+				found = s.Val
+				n++
+			}
+		}
+	}
+	if n != 1 {
+		return Val{}, false
+	}
+	et := g.Type().(*types.Pointer).Elem()
+	switch x := found.(type) {
+	case *ssa.Const:
+		if e.sortOfT(et) == sStr || strings.HasPrefix(e.sortOfT(et), "(_ BitVec") || e.sortOfT(et) == sBool {
+			return e.constVal(st, x), true
+		}
+	case *ssa.Convert:
+		if c, ok := x.X.(*ssa.Const); ok && e.sortOfT(et) == sStr && c.Value != nil {
+			v := e.constVal(st, c)
+			v.Typ = et
+			return v, true
+		}
+	}
+	return Val{}, false
 }
 
 func appendUniq(xs []string, x string) []string {
@@ -772,6 +818,9 @@ func (e *Env) assignPhis(fr *Frame, st *State, b, prev *ssa.BasicBlock) {
 }
 
 func (e *Env) doReturn(fr *Frame, st *State, r *ssa.Return) []Out {
+	if fr.depth == 0 {
+		st.trace = append(st.trace, e.pos(r.Pos()))
+	}
 	switch len(r.Results) {
 	case 0:
 		return []Out{{st: st, res: Val{K: kUnit}}}
@@ -1086,6 +1135,33 @@ func (e *Env) binop(st *State, op token.Token, a, b Val, rt types.Type, pos toke
 	return Val{K: kUnit}
 }
 
+// foldCmp folds (bvult a b)/(bvule a b) and conjunctions of them on literals.
+func foldCmp(c string) string {
+	if strings.HasPrefix(c, "(and ") {
+		parts := sexprSplit(c[5 : len(c)-1])
+		for i := range parts {
+			parts[i] = foldCmp(parts[i])
+		}
+		return tAnd(parts...)
+	}
+	for _, op := range []string{"bvult", "bvule"} {
+		if strings.HasPrefix(c, "("+op+" ") {
+			parts := sexprSplit(c[len(op)+2 : len(c)-1])
+			if len(parts) == 2 {
+				x, _, ok1 := bvLitVal(parts[0])
+				y, _, ok2 := bvLitVal(parts[1])
+				if ok1 && ok2 {
+					if (op == "bvult" && x < y) || (op == "bvule" && x <= y) {
+						return "true"
+					}
+					return "false"
+				}
+			}
+		}
+	}
+	return c
+}
+
 func foldBV(op token.Token, x, y uint64, w int, signed bool) (uint64, bool) {
 	mask := ^uint64(0)
 	if w < 64 {
@@ -1198,6 +1274,9 @@ func (e *Env) equal(st *State, a, b Val) string {
 		}
 	}
 	at, bt := e.term(st, a), e.term(st, b)
+	if (bt == "nilI" && e.nonNil[at]) || (at == "nilI" && e.nonNil[bt]) {
+		return "false"
+	}
 	sa, sb := e.sortOfT(a.Typ), e.sortOfT(b.Typ)
 	if sa != sb && a.Typ != nil && b.Typ != nil {
 		// e.g. slice compared with nil constant of same type is same sort; otherwise unsupported
